@@ -8,6 +8,31 @@ source_for(const std::string &profile, const std::string &prop, int tier)
         CaseSource s;
         ProfileCfg pc = profile_by_name(profile, prop, tier);
         s.make = [pc](uint64_t run_seed, uint64_t) { return gen_plan(pc, run_seed); };
+        if (profile == "reject_sync")
+                s.make = [pc](uint64_t run_seed, uint64_t) { return gen_plan_entry(pc, run_seed); };
+        if (profile == "reject") {
+                // C12: one run in four exercises the synchronous burst entry points with invalid jobs
+                ProfileCfg ps = profile_by_name("reject_sync", prop, tier);
+                s.make = [pc, ps](uint64_t run_seed, uint64_t idx) {
+                        return (idx % 4 == 3) ? gen_plan_entry(ps, run_seed) : gen_plan(pc, run_seed);
+                };
+        }
+        if (profile == "cc") {
+                // C18: every kind of entry point: schedules (job/burst API, invalid jobs), direct API + sync bursts,
+                // key-preparation helpers, SGL streams - all through the register-checking trampoline
+                ProfileCfg pe = profile_by_name("entry", prop, tier), pk = profile_by_name("keyprep", prop, tier),
+                           pg = profile_by_name("sgl", prop, tier);
+                pe.oracles = pk.oracles = pg.oracles = OR_FIFO;
+                pe.allow_invalid = true;
+                s.make = [pc, pe, pk, pg](uint64_t run_seed, uint64_t idx) {
+                        switch (idx % 5) {
+                        case 1: return gen_plan_entry(pe, run_seed);
+                        case 2: return gen_plan_keyprep(pk, run_seed);
+                        case 3: return gen_plan_sgl(pg, run_seed);
+                        default: return gen_plan(pc, run_seed);
+                        }
+                };
+        }
         if (profile == "entry")
                 s.make = [pc](uint64_t run_seed, uint64_t) { return gen_plan_entry(pc, run_seed); };
         if (profile == "keyprep")
